@@ -430,20 +430,25 @@ struct Runner {
     reg_end(L);
     hb_end(L, kX);
     if constexpr (A::kOpt) x_release_invoke(L, nv);
-    L.outstanding--;
     if constexpr (A::kMcs) dsim::set_alloc_tag(kTagMcs);
     dsim::op_begin("release X", L.idx);
   }
+  // the request stays outstanding (C12 bound) until the releasing call has returned
   void x_post_release(LS &L)
   {
     post_call();
+    L.outstanding--;
     if constexpr (A::kOpt) x_release_return(L);
+  }
+  void sx_post_release(LS &L)
+  {
+    post_call();
+    L.outstanding--;
   }
   void sx_pre_release(LS &L, int m, const char *ctx)
   {
     reg_end(L);
     hb_end(L, m);
-    L.outstanding--;
     if constexpr (A::kMcs) dsim::set_alloc_tag(kTagMcs);
     dsim::op_begin(ctx, L.idx);
   }
@@ -482,11 +487,11 @@ struct Runner {
       sx_pre_release(L, kS, "release S");
       if (op.b & kReleaseByAssign) {
         *s.cur = SG{};
-        post_call();
+        sx_post_release(L);
         expect_bool(*s.cur, false, "assigned-empty-over-owning");
       }
     }
-    if (!(op.b & kReleaseByAssign)) post_call();
+    if (!(op.b & kReleaseByAssign)) sx_post_release(L);
     check_version_quiescent(L, "release S");
   }
   void probe_moved_from_s(LS &, SG &g, Slots<SG> &s)
@@ -520,11 +525,11 @@ struct Runner {
       sx_pre_release(L, kSIX, "release SIX");
       if (op.b & kReleaseByAssign) {
         *s.cur = SIXG{};
-        post_call();
+        sx_post_release(L);
         expect_bool(*s.cur, false, "assigned-empty-over-owning");
       }
     }
-    if (!(op.b & kReleaseByAssign)) post_call();
+    if (!(op.b & kReleaseByAssign)) sx_post_release(L);
     check_version_quiescent(L, "release SIX");
   }
 
@@ -648,7 +653,7 @@ struct Runner {
         x_pre_release(L, x, acquired, op.c);
       }
     }
-    if (then_down) post_call(); else x_post_release(L);
+    if (then_down) sx_post_release(L); else x_post_release(L);
     check_version_quiescent(L, "release after conversion");
   }
 
@@ -678,7 +683,7 @@ struct Runner {
         sx_pre_release(L, kSIX, "release SIX");
       }
     }
-    if (then_up) x_post_release(L); else post_call();
+    if (then_up) x_post_release(L); else sx_post_release(L);
     check_version_quiescent(L, "release after conversion");
   }
 
@@ -873,11 +878,10 @@ struct Runner {
                 sx_pre_release(L, kS, "release S");
               } else {
                 expect_bool(g, false, "failed-TryLockS-result");
-                L.outstanding--;
                 dsim::op_begin("destroy empty guard", L.idx);
               }
             }
-            post_call();
+            sx_post_release(L);
             break;
           }
           case kOptTrySIX: {
@@ -896,11 +900,10 @@ struct Runner {
                 sx_pre_release(L, kSIX, "release SIX");
               } else {
                 expect_bool(g, false, "failed-TryLockSIX-result");
-                L.outstanding--;
                 dsim::op_begin("destroy empty guard", L.idx);
               }
             }
-            post_call();
+            sx_post_release(L);
             break;
           }
           default: {  // kOptTryX
@@ -922,11 +925,10 @@ struct Runner {
                 x_pre_release(L, *s.cur, acquired, op.c);
               } else {
                 expect_bool(g, false, "failed-TryLockX-result");
-                L.outstanding--;
                 dsim::op_begin("destroy empty guard", L.idx);
               }
             }
-            if (ok) x_post_release(L); else post_call();
+            if (ok) x_post_release(L); else sx_post_release(L);
             break;
           }
         }
@@ -965,7 +967,6 @@ struct Runner {
           dsim::probe(pPrepFallbackS);
         } else {
           post_call();
-          L.outstanding--;
           check_sampled_version(L, ci, cg.GetVersion(), "PrepareRead", "[C13][C03]");
           dsim::probe(pPrepNonOwning);
           rel_inv_at_obtain = L.rel_inv;
@@ -1014,7 +1015,7 @@ struct Runner {
           expect_bool(*cur, false, "assigned-empty-over-composite");
         }
       }
-      post_call();
+      sx_post_release(L);
       check_version_quiescent(L, "release composite");
     } else {
       (void)L;
